@@ -105,7 +105,14 @@ const SKIP: [&str; 7] = ["head", "script", "style", "link", "meta", "hr", "templ
 /// V(d): the visible, non-whitespace characters of the document's flow text, in document
 /// order: text nodes and img alt (when src is present too) outside head/script/style.
 pub fn visible_chars(nodes: &[DNode]) -> Vec<char> {
-    fn go(n: &DNode, out: &mut Vec<char>) {
+    visible_chars_opt(nodes, false)
+}
+/// V(d) as C03 states it: image alt text counts whether or not the image has a src.
+pub fn visible_chars_strict(nodes: &[DNode]) -> Vec<char> {
+    visible_chars_opt(nodes, true)
+}
+fn visible_chars_opt(nodes: &[DNode], alt_without_src: bool) -> Vec<char> {
+    fn go(n: &DNode, out: &mut Vec<char>, alt_without_src: bool) {
         match n {
             DNode::Text(t) => {
                 for c in t.chars() {
@@ -121,7 +128,7 @@ pub fn visible_chars(nodes: &[DNode]) -> Vec<char> {
                 if *html && name == "img" {
                     let alt = n.attr("alt").unwrap_or("");
                     let src = n.attr("src").unwrap_or("");
-                    if !alt.is_empty() && !src.is_empty() {
+                    if !alt.is_empty() && (alt_without_src || !src.is_empty()) {
                         for c in alt.chars() {
                             if !c.is_whitespace() && unicode_width::UnicodeWidthChar::width(c).is_some() {
                                 out.push(c);
@@ -134,7 +141,7 @@ pub fn visible_chars(nodes: &[DNode]) -> Vec<char> {
                     return;
                 }
                 for k in kids {
-                    go(k, out);
+                    go(k, out, alt_without_src);
                 }
             }
             _ => {}
@@ -142,7 +149,7 @@ pub fn visible_chars(nodes: &[DNode]) -> Vec<char> {
     }
     let mut out = Vec::new();
     for n in nodes {
-        go(n, &mut out);
+        go(n, &mut out, alt_without_src);
     }
     out
 }
